@@ -161,8 +161,11 @@ def h_columns(ctx, d, N, F, orders, types, cols):
                 ctx.oblige(f"additions[{c0}][{f},{i}]", O.eq(res[f, i], column(fr, i, c0 + 1)))
 
 
-def _hoomd_frames(ctx, d, N, F, typeids):
+def _hoomd_frames(ctx, d, N, F, typeids, shared=False):
+    """shared=True: constant topology - every frame refers to ONE int64 typeid array (what a trajectory writer that stores the
+    types once hands out)"""
     frames, data = [], []
+    one = np.array(typeids, dtype=np.int64)
     for f in range(F):
         pos = ctx.array(f"p{f}", (N, 3))
         box = ctx.array(f"box{f}", (6,))
@@ -171,15 +174,20 @@ def _hoomd_frames(ctx, d, N, F, typeids):
             step = int(round(step))
         frames.append(SimpleNamespace(
             configuration=SimpleNamespace(dimensions=d, box=box, step=step),
-            particles=SimpleNamespace(N=N, typeid=np.array(typeids), position=pos)))
+            particles=SimpleNamespace(N=N, typeid=(one if shared else np.array(typeids)), position=pos)))
         data.append(dict(pos=pos, box=box, step=step))
     return frames, data
 
 
-def h_gsd(ctx, d, N, F, typeids, dcd):
+def h_gsd(ctx, d, N, F, typeids, dcd, shared=False, twice=False):
     ctx.covers(FUNCS[7], FUNCS[8])
     g = ctx.repo("PyMatterSim.reader.gsd_reader_helper")
-    frames, data = _hoomd_frames(ctx, d, N, F, typeids)
+    frames, data = _hoomd_frames(ctx, d, N, F, typeids, shared)
+    if twice:      # converting the same frame sequence a second time gives the same snapshots
+        if dcd:
+            g.read_gsd_dcd(frames, SimpleNamespace(read=lambda: (ctx.array("dcd0", (F, N, 3)), None, None)), d)
+        else:
+            g.read_gsd(frames, d)
     if dcd:
         traj = ctx.array("dcd", (F, N, 3))
         fd = SimpleNamespace(read=lambda: (traj, None, None))
@@ -213,7 +221,8 @@ def cfg_center(tier, seed):
     out = []
     N = 3
     types = [1, 2, 3]
-    maps = [{"1": 1}, {"2": 1, "3": 2}, {"1": 2, "3": 1}, {"1": 1, "2": 2, "3": 3}, {"3": 5}]
+    # incl. maps whose values are again keys (a relabelled atom must not be relabelled a second time) and a pure swap
+    maps = [{"1": 1}, {"2": 1, "3": 2}, {"1": 2, "3": 1}, {"1": 1, "2": 2, "3": 3}, {"3": 5}, {"2": 3, "3": 1}, {"1": 2, "2": 1}]
     perms = list(permutations(range(N)))
     k = 0
     for d in (2, 3):
@@ -221,7 +230,8 @@ def cfg_center(tier, seed):
             for mt in maps:
                 for F in (1, 2):
                     k += 1
-                    if tier == "quick" and (k + seed) % 3:
+                    chained = mt in maps[5:] and F == 2 and style in ("x", "xs")     # always part of the quick tier
+                    if tier == "quick" and (k + seed) % 3 and not chained:
                         continue
                     orders = [list(perms[(k + f * 2) % len(perms)]) for f in range(F)]
                     out.append(dict(d=d, N=N, F=F, orders=orders, types=types, style=style, moltypes=mt))
@@ -242,7 +252,10 @@ def cfg_columns(tier, seed):
 
 
 def cfg_gsd(tier, seed):
-    return [dict(d=d, N=2, F=F, typeids=[0, 1], dcd=dcd) for d in (2, 3) for F in (1, 2) for dcd in (False, True)]
+    out = [dict(d=d, N=2, F=F, typeids=[0, 1], dcd=dcd) for d in (2, 3) for F in (1, 2) for dcd in (False, True)]
+    out += [dict(d=2, N=3, F=2, typeids=[0, 2, 1], dcd=dcd, shared=True) for dcd in (False, True)]
+    out += [dict(d=3, N=2, F=1, typeids=[1, 0], dcd=False, twice=True), dict(d=2, N=2, F=2, typeids=[0, 1], dcd=True, shared=True, twice=True)]
+    return out
 
 
 HARNESSES = [H("header_roundtrip", h_roundtrip, cfg_roundtrip), H("centertype", h_center, cfg_center),
